@@ -121,7 +121,7 @@ def gen_case(rng, tier, g):
             elif r < 0.2:
                 args['escapechar'] = '\\'
                 args['quoting'] = 3          # QUOTE_NONE
-            elif r < 0.3 and fmt == 'csv':
+            elif r < 0.3:
                 args['dialect'] = rng.choice(['unix', 'excel-tab', 'excel'])
         elif fmt == 'pickle':
             args['write_header'] = rng.random() < 0.7
@@ -150,6 +150,14 @@ def gen_case(rng, tier, g):
                                                 '@dict-str', '@dict-fn',
                                                 '@dict-hdr', '@dict-hdr'])
         table = _text_table(rng, maxrows)
+        if fmt == 'pickle' and len(table) > 1 and rng.random() < 0.3:
+            # values that pickle by reference to a builtin (whose module was
+            # renamed between Python 2 and 3: protocols 0-2 name it)
+            r_ = table[rng.randrange(1, len(table))]
+            if r_:
+                r_[rng.randrange(len(r_))] = enc(rng.choice(
+                    [frozenset([1, 2]), {3}, complex(1, -2),
+                     bytearray(b'ab'), range(3), b'', b'by']))
         n = len(table) - 1
         history = rng.choice(['full', 'full', 'partial-close-full',
                               'partial-drop-full', 'full-full',
